@@ -34,6 +34,7 @@ func init() {
 	translators["claimable"] = claimableTable
 	translators["cleanupatomic"] = cleanupAtomic
 	translators["proxymiss"] = proxyMiss
+	translators["pendreg"] = pendReg
 }
 
 func ownSel(e ast.Expr) (x string, sel string, ok bool) {
@@ -1403,7 +1404,7 @@ func proxyMiss() string {
 	// det, ok := <cache>[host]
 	detVar, okVar := "", ""
 	var miss []ast.Stmt
-	for _, st := range loop.List {
+	for si, st := range loop.List {
 		switch v := st.(type) {
 		case *ast.AssignStmt:
 			if len(v.Lhs) == 2 && len(v.Rhs) == 1 && detVar == "" {
@@ -1432,6 +1433,12 @@ func proxyMiss() string {
 				}
 			} else if id, ok := c.(*ast.Ident); ok && id.Name == okVar {
 				miss = elseStmts(v)
+				// `if ok { ...; continue }`: the miss is what follows in the loop
+				if n := len(v.Body.List); n > 0 {
+					if br, ok := v.Body.List[n-1].(*ast.BranchStmt); ok && br.Tok == token.CONTINUE {
+						miss = concat(miss, loop.List[si+1:])
+					}
+				}
 			} else if be, ok := c.(*ast.BinaryExpr); ok && be.Op == token.EQL {
 				if id, ok := unparen(be.X).(*ast.Ident); ok && id.Name == okVar {
 					if f, ok := unparen(be.Y).(*ast.Ident); ok && f.Name == "false" {
@@ -1506,8 +1513,8 @@ func proxyMiss() string {
 	}
 	// the loop goes on with the loop's variable: <result>[det] = ...
 	uses := false
-	for _, st := range loop.List {
-		if as, ok := st.(*ast.AssignStmt); ok && len(as.Lhs) == 1 {
+	ast.Inspect(loop, func(n ast.Node) bool {
+		if as, ok := n.(*ast.AssignStmt); ok && len(as.Lhs) == 1 && len(as.Rhs) == 1 {
 			if ix, ok := as.Lhs[0].(*ast.IndexExpr); ok {
 				if id, ok := unparen(ix.Index).(*ast.Ident); ok && id.Name == detVar {
 					uses = true
@@ -1521,7 +1528,8 @@ func proxyMiss() string {
 				}
 			}
 		}
-	}
+		return true
+	})
 	if !uses {
 		die("proxymiss: GetDetectorsForHosts: the loop does not add the detector it looked up to the result")
 	}
@@ -1529,4 +1537,117 @@ func proxyMiss() string {
 	b.WriteString("(* regenerated on every run by harness/cmd/translate (proxymiss) from apricot/cacheproxy Service.GetDetectorsForHosts:\n   on a cache miss 0 the whole host list goes to the backend, 1 the backend's answer for that host is used,\n   2 the backend's answer for that host does not reach the result *)\n")
 	fmt.Fprintf(&b, "Definition proxy_miss : nat := %d.\n", mode)
 	return b.String()
+}
+
+// pendreg: core/environment Environment.handleHooks (and the helpers it calls) - the registration of a started
+// call under its await expression (`awaitName, awaitWeight := callable.ParseTriggerExpression(...)`): a fresh
+// per-trigger map (`make(callable.CallsMap)`) is stored only under a condition that looks at the trigger's
+// entry alone (missing / nil / empty) - never under one that looks at the weight, and never unconditionally:
+// calls already pending for the same trigger at another weight stay registered.
+func pendReg() string {
+	p := ownPkg("core/environment")
+	entry := pkgMethod(p, "Environment", "handleHooks")
+	if entry == nil {
+		die("pendreg: func (env *Environment) handleHooks not found in core/environment")
+	}
+	found, careful := 0, true
+	for _, fd := range p.reachable(entry, 2) {
+		if fd.Body == nil {
+			continue
+		}
+		// the block that parses the await expression
+		var visit func(stmts []ast.Stmt)
+		visit = func(stmts []ast.Stmt) {
+			for i, st := range stmts {
+				if as, ok := st.(*ast.AssignStmt); ok && len(as.Lhs) == 2 && len(as.Rhs) == 1 {
+					if c, ok := unparen(as.Rhs[0]).(*ast.CallExpr); ok {
+						if _, sel, ok := ownSel(c.Fun); ok && sel == "ParseTriggerExpression" {
+							if w, ok := as.Lhs[1].(*ast.Ident); ok {
+								found++
+								if !freshMapsCareful(stmts[i+1:], w.Name, nil) {
+									careful = false
+								}
+							}
+						}
+					}
+				}
+				ast.Inspect(st, func(n ast.Node) bool {
+					if b, ok := n.(*ast.BlockStmt); ok {
+						visit(b.List)
+						return false
+					}
+					return true
+				})
+			}
+		}
+		visit(fd.Body.List)
+	}
+	if found == 0 {
+		die("pendreg: handleHooks: the registration of started calls under their await expression was not found")
+	}
+	var b strings.Builder
+	b.WriteString("(* regenerated on every run by harness/cmd/translate (pendreg) from core/environment Environment.handleHooks:\n   a fresh per-trigger map of pending calls is stored only when the trigger has none (or an empty one) *)\n")
+	fmt.Fprintf(&b, "Definition reg_fresh_only_when_empty : bool := %v.\n", careful)
+	return b.String()
+}
+
+// freshMapsCareful: every make(<map>) in the statements sits under at least one if, and no enclosing if looks
+// at the weight variable
+func freshMapsCareful(stmts []ast.Stmt, weightVar string, guards []ast.Node) bool {
+	ok := true
+	mentionsWeight := func(n ast.Node) bool {
+		return n != nil && pwMentions(n, weightVar)
+	}
+	check := func(n ast.Node, guards []ast.Node) {
+		ast.Inspect(n, func(m ast.Node) bool {
+			if _, isBlock := m.(*ast.BlockStmt); isBlock {
+				return false
+			}
+			c, isCall := m.(*ast.CallExpr)
+			if !isCall {
+				return true
+			}
+			if id, isId := c.Fun.(*ast.Ident); isId && id.Name == "make" && len(c.Args) >= 1 {
+				ty := printNode(c.Args[0])
+				if strings.Contains(ty, "CallsMap") || strings.HasPrefix(ty, "map[") {
+					if len(guards) == 0 {
+						ok = false
+					}
+					for _, g := range guards {
+						if mentionsWeight(g) {
+							ok = false
+						}
+					}
+				}
+			}
+			return true
+		})
+	}
+	for _, st := range stmts {
+		switch v := st.(type) {
+		case *ast.IfStmt:
+			g := append(append([]ast.Node{}, guards...), v.Cond)
+			if v.Init != nil {
+				g = append(g, v.Init)
+			}
+			if !freshMapsCareful(v.Body.List, weightVar, g) || !freshMapsCareful(elseStmts(v), weightVar, g) {
+				ok = false
+			}
+		case *ast.BlockStmt:
+			if !freshMapsCareful(v.List, weightVar, guards) {
+				ok = false
+			}
+		case *ast.ForStmt:
+			if !freshMapsCareful(v.Body.List, weightVar, guards) {
+				ok = false
+			}
+		case *ast.RangeStmt:
+			if !freshMapsCareful(v.Body.List, weightVar, guards) {
+				ok = false
+			}
+		default:
+			check(st, guards)
+		}
+	}
+	return ok
 }
